@@ -25,6 +25,8 @@
          and each with a witness, merge into a justified field set with a witness.
      T5  regroup_J, finish_J, optimize_J: okT t = true -> optimize fuel t = Some t' -> J t e obs m -> J t' e obs m
          (okT/okt: the structural invariant of Proofs/Sound.v — object types inside a type carry no Optional field).
+         D32 repair of regroup (work-list = flat_map members_deep ts): members_deep_J / flat_map_members_deep_J show the
+         deep work-list is justified member by member; regroup_J then runs on it unchanged.  No statement changed.
      T6  generate_J; then J_tightb: on a normal form (nf, from NormalForm.generate_nfo) J implies tightb for all large
          fuels — the normal form is what removes the relaxations (unions have >= 2 members and no Any member,
          literals are non-overflowed and non-empty, no Optional[Optional]). *)
@@ -711,10 +713,27 @@ Section TightJ.
           apply classify_J; auto. now apply add_null_J.
       Qed.
 
+      (* D32 repair of regroup: the work-list is flat_map members_deep ts.  An Optional member contributes TNull
+         (justified: at m = false the Optional itself needs an observed null) and its payload; a union member its
+         members. *)
+      Lemma members_deep_J : forall t, J t e obs false -> Forall Jx (members_deep t).
+      Proof.
+        induction t using ty_ind2; intros HJ; try (constructor; [exact HJ|constructor]).
+        - (* TOpt *) rewrite J_opt in HJ. destruct HJ as [[A|A] B]; [discriminate|].
+          change (members_deep (TOpt t)) with (TNull :: members_deep t). constructor; [exact A|apply IHt, B].
+        - (* TUnion *) rewrite members_deep_union. rewrite J_union in HJ.
+          induction H as [|x r Hx Hr IHr]; [constructor|]. inversion HJ; subst.
+          cbn [flat_map]. apply Forall_app. split; auto.
+      Qed.
+      Lemma flat_map_members_deep_J ts : Forall Jx ts -> Forall Jx (flat_map members_deep ts).
+      Proof. intros H. rewrite <- members_deep_union. apply members_deep_J. apply J_union. exact H. Qed.
+
       Lemma regroup_J ts : okts ts -> Forall Jx ts ->
         Forall (fun t => okT t = true /\ J t e obs false) (regroup ts).
       Proof.
-        intros O HJ. unfold Optimize.regroup.
+        intros O0 HJ0. unfold Optimize.regroup.
+        pose proof (flat_map_members_deep_okt ts O0) as O. pose proof (flat_map_members_deep_J ts HJ0) as HJ.
+        clear O0 HJ0. set (ms := flat_map members_deep ts) in *. clearbody ms. clear ts. rename ms into ts.
         assert (I0 : catinv ([], [], [], [], [])) by (simpl; repeat split; constructor).
         assert (C0 : catJ ([], [], [], [], [])) by (simpl; repeat split; constructor).
         destruct (split_fold_J ts _ I0 C0 O HJ) as [I C].
